@@ -81,7 +81,7 @@ package main
 // (or on an interrupt signal / an error).
 
 //@ func file
-//@   property C13 C08 C09
+//@   property C13 C08 C09 C07
 //@   returns (f, err)
 //@   ghost truncated bool = false
 //@   at call Create: ghost truncated = true
@@ -181,6 +181,12 @@ package main
 //@   ghost libenc ref = 0
 //@   at call NewJSONTargeter: ghost libtr = ref(result)
 //@   at call NewHTTPTargeter: ghost libtr = ref(result)
+//@   ghost eagerRead bool = false
+//@   ghost tgtPtr ref = 0
+//@   ghost tgtLen int = 0
+//@   before call ReadAllTargets: assert [the-eager-reader-draws-from-the-library-targeter-itself] ref(arg0) == libtr
+//@   at call ReadAllTargets: ghost eagerRead = true ; ghost tgtPtr = ptr(result0) ; ghost tgtLen = len(result0)
+//@   before call NewStaticTargeter: assert [the-static-targeter-gets-every-target-read] eagerRead && ptr(arg0) == tgtPtr && len(arg0) == tgtLen
 //@   at call NewStaticTargeter: ghost libtr = ref(result)
 //@   at call NewEncoder: ghost libenc = ref(result)
 //@   before call processAttack: assert [results-written-by-the-library-encoder-itself] ref(arg2) == libenc
@@ -221,7 +227,7 @@ package main
 // processAttack: every result received from the attack is observed (if metrics are on) and written
 // exactly once, in the order received, until the channel is closed, a write fails or a second signal.
 //@ func processAttack
-//@   property C02 C20 C09
+//@   property C02 C20 C09 C05
 //@   pragma frame off
 //@   pragma concurrent yes
 //@   shared done, closed
@@ -245,6 +251,10 @@ package main
 //@        assert [every-written-result-was-observed-first-when-metrics-are-on] pm != nil ==> observed == written + 1 ; ghost written = written + 1
 //@   ensures [every-received-result-written-once] err == nil ==> written == got || written + 1 == got
 //@   ensures [every-signal-first-asks-the-attack-to-stop] signals == stops
+//@   ghost stopRefused bool = false
+//@   at call Stop: ghost stopRefused = !result
+//@   ensures [ends-only-at-the-end-of-the-results-on-a-write-error-or-a-second-signal] err == nil ==> stopRefused || closed(res)
+//@   forbid [results-are-written-as-received] write vegeta.Result
 //@   loop 1
 //@     invariant written == got && signals == stops && (pm != nil ==> observed == written) && atk == old(atk) && atk != nil && atk.stopch == old(atk.stopch) && enc == old(enc) && enc != nil && pm == old(pm)
 //@     invariant (closed(atk.stopch) <==> done(&atk.stopOnce)) && (pm != nil ==> wfMetrics(pm))
